@@ -61,42 +61,66 @@ Definition pairs_flat (l : list (Z * Z)) : list Z := flat_map (fun p => [fst p; 
 
 Definition flag (c : Z) (ok : bool) : list Z := if ok then [] else [c].
 
+(* One-sided comparison inside a known-trigger region (DESIGN 4): there the implementation may
+   behave like the (defective) model or satisfy the property, so that repairing a known defect in
+   /repo raises no alarm.  A model/implementation difference inside region k is reported as
+   1000*k + code (k = 1 C13.zero_length_cycle, 2 C13.sticky_burnout, 3 C13.overdrawn_year); the
+   monitors run everywhere. *)
+Definition region (o : opts) (bt : Z -> Z) (ys : list year) (h : Z) (c0 : cache) : Z :=
+  if zero_len_cycle o bt h then 1
+  else if sticky_burnout c0 then 2
+  else if overdrawn o bt ys h || short_forecast o bt ys h then 3
+  else 0.
+Definition mflag (k c : Z) (ok : bool) : list Z := flag (1000 * k + c) ok.
+
+(* the bound monitor: relative to the model's current year when model and implementation agree on
+   the pulled amount; otherwise (possible only inside a trigger region) model-free: within the
+   pool-capped burnout rate or within what some reward year has left *)
+Definition pull_bound_any (o : opts) (ys : list year) (pool a : Z) : bool :=
+  (a <=? Z.min (o_burnout o) pool)
+  || existsb (fun p => a <=? fst p - y_till (snd p)) (combine (o_shares o) ys).
+Definition bound_monitor (o : opts) (ys : list year) (pool : Z) (m : cres * cache) (ok : bool) (a : Z) : bool :=
+  negb ok ||
+  (if cres_ok (fst m) && (cres_z (fst m) =? a) then pull_bound o ys pool (snd m) a
+   else pull_bound_any o ys pool a).
+
 Definition check_blk (o : opts) (c : cache) (b : blk) : list Z * cache :=
   let c0 := if b_restart b then cold else c in
   let bt := bt_of o b in
+  let k := region o bt (b_years b) (b_h b) c0 in
   let mc := pull o bt (b_years b) (b_h b) (b_pool b) cold in
   let mw := pull o bt (b_years b) (b_h b) (b_pool b) c0 in
   let mat_expect := if matures_at o (b_h b) then b_matured_in b else map (fun _ => 0) (b_matured_in b) in
   let cold_codes :=
-    flag 1 (Bool.eqb (cres_ok (fst mc)) (ob_cold_ok b) && (negb (ob_cold_ok b) || (cres_z (fst mc) =? ob_cold b)))
-    ++ flag 7 (Bool.eqb (cres_ok (fst mw)) (ob_pull_ok b) && (negb (ob_pull_ok b) || (cres_z (fst mw) =? ob_pull b)))
+    mflag k 1 (Bool.eqb (cres_ok (fst mc)) (ob_cold_ok b) && (negb (ob_cold_ok b) || (cres_z (fst mc) =? ob_cold b)))
+    ++ mflag k 7 (Bool.eqb (cres_ok (fst mw)) (ob_pull_ok b) && (negb (ob_pull_ok b) || (cres_z (fst mw) =? ob_pull b)))
     ++ flag (if sticky_burnout c0 then 120 else if overdrawn o bt (b_years b) (b_h b) then 220 else 20)
          (Bool.eqb (ob_pull_ok b) (ob_cold_ok b) && (negb (ob_pull_ok b) || (ob_pull b =? ob_cold b)))
     ++ flag (if overdrawn o bt (b_years b) (b_h b) then 221 else 21)
-         (negb (ob_pull_ok b) || (b_pool b <? 0) || pull_bound o (b_years b) (b_pool b) (snd mw) (ob_pull b)) in
+         ((b_pool b <? 0) || bound_monitor o (b_years b) (b_pool b) mw (ob_pull_ok b) (ob_pull b)) in
   match fst mw with
   | CErr =>
       (* handleBlockRewards returns before any credit and before ConsumeRewards *)
       (cold_codes
-       ++ flag 2 (zlist_eqb (map (fun _ => 0) (b_votes b)) (ob_vals b))
-       ++ flag 3 (zlist_eqb (map (fun _ => 0) (b_delegs b)) (ob_delegs b))
-       ++ flag 4 (0 =? ob_consumed b)
-       ++ flag 5 (zlist_eqb (years_proj (b_years b)) (pairs_flat (ob_years b)))
-       ++ flag 6 (zlist_eqb (map (fun _ => 0) (b_matured_in b)) (ob_matured b)), snd mw)
+       ++ mflag k 2 (zlist_eqb (map (fun _ => 0) (b_votes b)) (ob_vals b))
+       ++ mflag k 3 (zlist_eqb (map (fun _ => 0) (b_delegs b)) (ob_delegs b))
+       ++ mflag k 4 (0 =? ob_consumed b)
+       ++ mflag k 5 (zlist_eqb (years_proj (b_years b)) (pairs_flat (ob_years b)))
+       ++ mflag k 6 (zlist_eqb (map (fun _ => 0) (b_matured_in b)) (ob_matured b)), snd mw)
   | COk R =>
       match split K (b_votes b) (b_dp b) (b_delegs b) (b_prop b) R with
-      | None => (cold_codes ++ [9], snd mw)
+      | None => (cold_codes ++ mflag k 9 false, snd mw)
       | Some out =>
           (cold_codes
-           ++ flag 2 (zlist_eqb (map (fun v => expect_for (so_vals out) (v_addr v)) (b_votes b)) (ob_vals b))
+           ++ mflag k 2 (zlist_eqb (map (fun v => expect_for (so_vals out) (v_addr v)) (b_votes b)) (ob_vals b))
            (* no AddRewardsBalance call at all (empty pool / early return) = every delta is 0 *)
-           ++ flag 3 (zlist_eqb (match so_delegs out with
+           ++ mflag k 3 (zlist_eqb (match so_delegs out with
                                  | [] => map (fun _ => 0) (b_delegs b)
                                  | l => map snd l end) (ob_delegs b))
-           ++ flag 4 (so_consumed out =? ob_consumed b)
-           ++ flag 5 (zlist_eqb (years_proj (consume o (b_years b) (b_h b) (snd mw) (so_consumed out)))
+           ++ mflag k 4 (so_consumed out =? ob_consumed b)
+           ++ mflag k 5 (zlist_eqb (years_proj (consume o (b_years b) (b_h b) (snd mw) (so_consumed out)))
                                 (pairs_flat (ob_years b)))
-           ++ flag 6 (zlist_eqb mat_expect (ob_matured b)), snd mw)
+           ++ mflag k 6 (zlist_eqb mat_expect (ob_matured b)), snd mw)
       end
   end.
 
@@ -137,26 +161,34 @@ Record pcase := mkPcase { p_o : opts; p_times : list Z; p_closes : list Z; p_ste
 
 Definition bt_list (times : list Z) : Z -> Z := fun x => nthZ times (x - 1) 0.
 
+(* next year records: close times of the model, totals as observed (when the shapes agree) *)
+Fixpoint resync (ys : list year) (obs : list (Z * Z)) : list year :=
+  match ys, obs with
+  | y :: r, (d, t) :: ro => mkYear (y_close y) d t :: resync r ro
+  | _, _ => ys
+  end.
+
 Fixpoint check_psteps (o : opts) (bt : Z -> Z) (ys : list year) (c : cache) (i : Z) (ss : list pstep)
   : list Z :=
   match ss with
   | [] => []
   | s :: r =>
       let c0 := if p_restart s then cold else c in
+      let k := region o bt ys (p_h s) c0 in
       let mw := pull o bt ys (p_h s) (p_pool s) c0 in
       let mc := pull o bt ys (p_h s) (p_pool s) cold in
       let ys' := if cres_ok (fst mw) then consume o ys (p_h s) (snd mw) (p_consumed s) else ys in
       let codes :=
-        flag 1 (Bool.eqb (cres_ok (fst mc)) (po_cold_ok s) && (negb (po_cold_ok s) || (cres_z (fst mc) =? po_cold s)))
-        ++ flag 2 (Bool.eqb (cres_ok (fst mw)) (po_warm_ok s) && (negb (po_warm_ok s) || (cres_z (fst mw) =? po_warm s)))
-        ++ flag 5 (zlist_eqb (years_proj ys') (pairs_flat (po_years s)))
+        mflag k 1 (Bool.eqb (cres_ok (fst mc)) (po_cold_ok s) && (negb (po_cold_ok s) || (cres_z (fst mc) =? po_cold s)))
+        ++ mflag k 2 (Bool.eqb (cres_ok (fst mw)) (po_warm_ok s) && (negb (po_warm_ok s) || (cres_z (fst mw) =? po_warm s)))
+        ++ mflag k 5 (zlist_eqb (years_proj ys') (pairs_flat (po_years s)))
         (* monitors on the observed values *)
         ++ flag (if sticky_burnout c0 then 120 else if overdrawn o bt ys (p_h s) then 220 else 20)
              (Bool.eqb (po_warm_ok s) (po_cold_ok s) && (negb (po_warm_ok s) || (po_warm s =? po_cold s)))
         ++ flag (if overdrawn o bt ys (p_h s) then 221 else 21)
-             (negb (po_warm_ok s) || pull_bound o ys (p_pool s) (snd mw) (po_warm s))
+             (bound_monitor o ys (p_pool s) mw (po_warm_ok s) (po_warm s))
         ++ flag (if zero_len_cycle o bt (p_h s) then 112 else 12) (negb (po_warm_ok s) || (0 <=? po_warm s)) in
-      flat_map (fun code => [i; code]) codes ++ check_psteps o bt ys' (snd mw) (i + 1) r
+      flat_map (fun code => [i; code]) codes ++ check_psteps o bt (resync ys' (po_years s)) (snd mw) (i + 1) r
   end.
 
 Definition init_years (closes : list Z) : list year := map (fun t => mkYear t 0 0) closes.
